@@ -24,7 +24,7 @@ PROP_FILES = ["Prop_C13"]
 RULE = ("every shipped crop parameter file (28 classic + 28 YAML) with zero / junk prior state and the perennial "
         "continuation, plus generated variants (numeric fields, BBCH codes, N-function-5 tokens re-drawn); a case is "
         "non-trivial when distinct (file bytes, reader, prior)")
-TRUSTED = ["gopkg.in/yaml.v3 (decoding / encoding of YAML crop files)",
+TRUSTED = ["gopkg.in/yaml.v3 (decoding / encoding of YAML crop files)", "WeatherModel / WeatherProofs of property C04 (imported theorems, tied to the code by C04's correspondence)",
            "python renderers of the abstract project (rotation, soil, measurement, event, weather files)",
            "WeatherModel (C04) covers the weather loaders; here the weather clause rests on paired runs"]
 ASSUMPTIONS = ["decimal text of <= 15 significant digits is one correctly rounded division m/10^k (strconv.ParseFloat)",
@@ -46,9 +46,13 @@ LEVEL_TEXT = ("Machine-checked proof (Coq) of loader agreement for the date form
               "generated variants each run (bit-exact); "
               "every clause of the property is evaluated on the real binary by paired whole runs compared as bytes.")
 LEVEL_NOTE = ("partial proof: dates, crop parameter readers, soil readers, rotation readers and measurement readers (runs "
-              "without automatic management) are proved; the weather readers are NOT modelled here — the weather "
-              "clause is covered by the paired-run oracle only (generated series in the three layouts, with heights "
-              "line, sentinels, calm days, precipitation correction; the weather loaders are modelled under C04). Trusted: Coq kernel/vm_compute, YAML codecs, python renderers (the soil renderings are "
+              "without automatic management) are proved at character level; for the weather clause the record-level "
+              "theorems of the C04 development are imported (C13_weather_csv_cz_agree = layouts_agree of the multi-year "
+              "CSV and day-of-year readers, C13_weather_values_agree for per-year vs multi-year loads) — file names "
+              "(year extension), tokenisation and the per-year reader's year bookkeeping are covered here by the "
+              "paired-run oracle only (series 1998-2004 around the extension switch, periods ending on 31 Dec of leap and "
+              "non-leap years, start on 1 Jan, heights line, sentinels, calm days, precipitation correction; all three "
+              "layouts pairwise). Trusted: Coq kernel/vm_compute, YAML codecs, python renderers (the soil renderings are "
               "checked against the Coq renderers), harness/driver. The refutation witness C13_bbch_difference_refuted "
               "evaluates primitive floats; the other theorems are axiom-free.")
 TECHNIQUE = "Coq proof (character-level reader models, loader agreement) + bit-exact loaded-state correspondence + paired whole runs"
@@ -251,7 +255,7 @@ def correspond(ctx):
     c.dist["generated_variants_rejected_by_converter"] = conv_failed
     c.samples = ["%s %s" % (p[0], p[1]) for p in plan[:4] + plan[-3:]]
     c.notes.append("compared per case: every field of the crop state (369 floats, 25+ integers) or of the converted record, bit for bit")
-    c.notes.append("NOT modelled (paired runs only): weather readers")
+    c.notes.append("weather readers: record-level theorems imported from C04 (WeatherModel); file naming / tokenisation by paired runs only")
     c.notes.append("fields the classic and the YAML crop reader leave different over the same prior state: see fields_the_classic_and_yaml_reader_leave_different "
                    "(any field outside RGA / RGB / SubOrgan is a mismatch)")
     return c
@@ -758,16 +762,23 @@ def _weather_clause(ctx, env, rnd, search):
     lines, groups = [], []
     src = os.path.join(env.ex, "weather", "historical", "109_120.csv")
     D = datetime.date
-    n = 10 if ctx.thorough or search else 2
-    for k in range(n):
-        y0 = rnd.choice([1980, 1984, 1990, 1995])
-        ser = F.read_weather_csv(src, y0, y0 + 4)
-        P = F.base_project(rnd, years=(y0, y0 + 3))
+    # periods: with the year 2000 (per-year file extensions .999 -> .000 -> .001), ending on 31 December of a leap year and of
+    # a non-leap year; the series covers exactly the simulated years
+    periods = [(1998, 2000), (1999, 2001)]
+    if ctx.thorough or search:
+        periods += [(1998, 2004), (2000, 2003), (1997, 1999), (1996, 2000), (1980, 1984), (2001, 2004), (1984, 1987), (1999, 2002)]
+    for k, (y0, y1) in enumerate(periods):
+        ser = F.read_weather_csv(src, y0, y1)
+        P = F.base_project(rnd, years=(y0, y1))
+        import copy as _copy
+        P1 = _copy.deepcopy(P)                      # the simulation starts on 1 January (harvest of the preceding crop)
+        P1.rot[0] = P1.rot[0][:2] + (D(y0, 1, 1),) + P1.rot[0][3:]
 
         def mod(date, **kv):
             return [(d, dict(r, **kv) if d == date else r) for d, r in ser]
-        ymid = y0 + 1 + rnd.randrange(2)
+        ymid = y0 + 1 + rnd.randrange(max(1, y1 - y0 - 1))
         variants = [("plain", ser, (0, 1, 2), None),
+                    ("start-1jan", ser, (0, 1, 2), None),
                     ("heights", ser, (0, 1), None),          # third header line: station height, wind height 10 m
                     ("preco", ser, (0, 1, 2), None),         # monthly precipitation correction (shipped preco.txt)
                     ("precogen", ser, (0, 1, 2), None),      # ... with generated factors that change every month
@@ -791,13 +802,18 @@ def _weather_clause(ctx, env, rnd, search):
                         else:
                             pf_.write("Mo Corr\n" + "\n".join("%2d %s" % (m_ + 1, fac[m_]) for m_ in range(12)))
                 nm = "wx%d_%s_%d" % (k, vname.replace("-", ""), lay)
-                F.write_project(env, nm, P, cfg=keys)
-                lines.append(F.line_for(nm, P, fcode="X"))
+                Q = P1 if vname == "start-1jan" else P
+                F.write_project(env, nm, Q, cfg=keys)
+                lines.append(F.line_for(nm, Q, fcode="X"))
                 idx[lay] = len(lines) - 1
+            per = "%d-%d" % (y0, y1)
             for lay in layouts[1:]:
-                key = ("%s:%s:y%d" % (special, vname, ymid)) if special else ("weather-layout:0-vs-%d:%s:y%d" % (lay, vname, ymid))
-                groups.append((key, idx[0], idx[lay], "weather as one file per year vs %s (%s)" %
-                               ("multi-year CSV" if lay == 1 else "day-of-year layout", vname)))
+                key = ("%s:%s:%s:y%d" % (special, vname, per, ymid)) if special else ("weather-layout:0-vs-%d:%s:%s" % (lay, vname, per))
+                groups.append((key, idx[0], idx[lay], "weather %s as one file per year vs %s (%s)" %
+                               (per, "multi-year CSV" if lay == 1 else "day-of-year layout", vname)))
+            if 1 in idx and 2 in idx:
+                groups.append(("weather-layout:1-vs-2:%s:%s" % (vname, per), idx[1], idx[2],
+                               "weather %s as multi-year CSV vs day-of-year layout (%s)" % (per, vname)))
     return lines, groups
 
 
